@@ -54,6 +54,13 @@ def insertSorted (x : String) : List String → List String
 /-- sorted, duplicate-free -/
 def sortStrings (l : List String) : List String := l.foldl (fun acc x => insertSorted x acc) []
 
+/-- sorted, duplicates KEPT (for multisets: two connections may carry identical metadata) -/
+def insertKeep (x : String) : List String → List String
+  | [] => [x]
+  | y :: ys => if x ≤ y then x :: y :: ys else y :: insertKeep x ys
+
+def sortStringsKeep (l : List String) : List String := l.foldl (fun acc x => insertKeep x acc) []
+
 def joinWith (sep : String) (l : List String) : String := sep.intercalate l
 
 def fields (line : String) : List String :=
